@@ -8,8 +8,8 @@ from verif_config import PROPS
 TRUST = "Trusted: Coq 8.16.1 kernel (no axioms: every theorem prints 'Closed under the global context'), extraction (ExtrOcamlBasic only), hand-written OCaml glue and monitor clauses, Go harness with gated simulation adapters (differential testing bounds the model-code tie), /repo/verif_export.go (tag verif). "
 ENGINE_Q = "Quantification of the history theorems: every configuration, every sequence of operations in any order, every fault plan (error before/after the effect, lease loss, crash at any adapter call), crashes, lease revocations, rewinds, duplicated deliveries; hist_ok excludes stale reads and negative clock steps. "
 TEXT = {
- "C01": ("Theorems (props/C01.v): no committed write is stranded with respect to the step consumer / timeout inserter of its status (outbox, or ahead of the committed position, or another shard's, or handled to completion with the witness the nil return leaves), proved for all histories from the delivery invariant (a consumer's position never passes an unhandled event; no hypothesis on the history) and the publish invariant; exactly-once effect (functions act on the persisted version only; each write moves the version by one). " + ENGINE_Q + "Correspondence: the real engine under the deterministic simulation harness at every single fault position x fault kind and random multi-fault runs, compared with the extracted model; the monitor checks on the implementation's observations that at quiescence every run's final record equals the failure-free execution.",
-         "PARTIAL: the 'final status and object equal the failure-free execution' clause is decided by the monitor on generated histories, not by one theorem; its ingredients (not stranded, effect on persisted version, one version per write) are theorems. " + TRUST,
+ "C01": ("Theorems (props/C01.v): no committed write is stranded with respect to the step consumer / timeout inserter of its status (outbox, or ahead of the committed position, or another shard's, or handled to completion with the witness the nil return leaves), proved for all histories from the delivery invariant (a consumer's position never passes an unhandled event; no hypothesis on the history) and the publish invariant; exactly-once effect (functions act on the persisted version only; each write moves the version by one); same effect as the failure-free execution (for every state, every Store of a step / timeout / callback handler is a pause/cancel keeping the status and object the function saw, or exactly the failure-free outcome of the configured function on the record it saw). " + ENGINE_Q + "Correspondence: the real engine under the deterministic simulation harness at every single fault position x fault kind and random multi-fault runs, compared with the extracted model; the monitor checks on the implementation's observations that at quiescence every run's final record equals the failure-free execution.",
+         "PARTIAL: the 'final status and object equal the failure-free execution' clause is decided by the monitor on generated histories, not by one theorem; its ingredients (not stranded, effect on persisted version, one version per write, what-is-written is the failure-free outcome) are theorems. " + TRUST,
          "Coq proof (inductive delivery + publish invariants over all operation sequences and fault plans) + differential correspondence with the real engine + at-quiescence monitor"),
  "C02": ("Theorems: for every builder call list (any order) the graph's transitions are exactly the declared edges, validateTransition accepts exactly those for all integers; for all histories every committed write keeps the status or follows a declared transition from the persisted status, and a new run starts at a declared status. " + ENGINE_Q + "Correspondence: real Builder/graph/validateTransition on random call lists and all permutations of small sets; engine histories with functions returning declared, undeclared, 0, -1 and error-with-status outcomes.",
          TRUST, "Coq proof (graph invariant over AddTransition sequences; token theorem over all histories) + differential correspondence + monitor"),
@@ -18,7 +18,7 @@ TEXT = {
  "C04": ("Theorems: for EVERY state (stale-read fault on the lookup included) a step/inserter handler that reads a higher version invokes nothing, writes nothing and returns nil; a lower version => nothing invoked or written, error (retry); for all histories functions act on the persisted version only and every write is version+1. Correspondence: rewinds to every position, duplicated deliveries, stale replica answers, on the real engine.",
          "A stale read that makes an old event look current is outside the statement (undetectable without conditional writes). " + TRUST,
          "Coq proof (handler facts for every state + token theorem) + differential correspondence + monitor"),
- "C05": ("Theorems (world invariant, all histories): a Store appends exactly one write and one outbox entry routing it; every committed write is in the outbox or published; every log event and outbox entry stems from a committed write. " + ENGINE_Q + "Correspondence + monitor: per relay cycle an entry is deleted only after its successful send and close, at every fault position of the cycle, on the real purgeOutbox.",
+ "C05": ("Theorems (world invariant, all histories): a Store appends exactly one write and one outbox entry routing it; every committed write is in the outbox or published; every log event and outbox entry stems from a committed write. " + ENGINE_Q + "For every state and batch an entry is deleted only directly after its successful send and close (theorem on the cycle's trace). Correspondence + the same monitor clause at every fault position of the cycle on the real purgeOutbox.",
          "The liveness count (ceil(n/limit) fault-free cycles drain the outbox) is monitored, not a theorem. " + TRUST,
          "Coq proof (publish invariant by induction over operations) + differential correspondence + monitor"),
  "C06": ("Theorems: routing is a total function of the record for all integer run-state codes; topic strings of one workflow are pairwise distinct for every name (itoa injective); Await release condition (repaired F9; the original refuted with a witness); for all histories the event a consumer receives is of its own topic and announces a committed write routed to that topic. Correspondence: exhaustive grid through the real protobuf outbox entry and topic.go; await family.",
@@ -32,12 +32,12 @@ TEXT = {
  "C09": ("Theorems: a new run is Initiated, version 1, at a declared status; world invariant for all histories: every run followed by a later run of its foreign ID is finished (at most one unfinished). Composition with C17 (memrecordstore refines the reference store, Latest = newest created). " + ENGINE_Q,
          TRUST, "Coq proof (world invariant by induction over operations) + differential correspondence + monitor"),
  "C10": ("Theorems over the shard filter: for every integer event ID and every shard count n >= 2 exactly one shard handles the event; the original truncated remainder refuted (F7, repaired). Correspondence: real shardFilter on all residues and both signs; the launch family compares the roles the real Run requests with the model's enumeration on the whole configuration grid (per-unit/default counts 0..8 x hooks x timeouts x connectors x paused-retry, two display-string variants).",
-         "PARTIAL: the launch enumeration / role-name part is an exhaustive comparison on the grid, not a theorem. int64 modelled as Z. " + TRUST,
+         "Launch: theorems that the model's launch list is exactly the configured units, each once, with max(1,n) consumers forming shards 1..n of n; the list is tied to the real Run by the launch family. PARTIAL: distinctness of the role-name strings is an exhaustive comparison on the grid, not a theorem. int64 modelled as Z. " + TRUST,
          "Coq proof (shard partition for all Z) + exhaustive / differential correspondence"),
  "C11": ("Theorems: for EVERY state a store/stream/timeout call made after lease loss or crash has no effect; a failed operation takes the error exit and the process survives; memrolescheduler transition system: at most one live holder per role for every interleaving of await/grant/cancel/unlock. Monitor on the real engine: every call under the current lease, Await after errors, open/close balance, no call after Stop.",
          "PARTIAL: freedom from data races is a statement about Go's memory model; it is not modelled and nothing is claimed for it. " + TRUST,
          "Coq proof (handler facts + transition-system mutex invariant) + differential correspondence + monitor"),
- "C12": ("Theorems: for all histories a timeout function runs only for a run persisted at that status, not stopped, not finished; memtimeoutstore refines the reference timeout store for every operation sequence (unknown IDs included); due <=> same workflow/status, not completed, expired; other timers untouched. Monitor: fired only with an own due timer listed in this cycle, cancelled when the run moved, completed after the transition.",
+ "C12": ("Theorems: for all histories a timeout function runs only for a run persisted at that status, not stopped, not finished; memtimeoutstore refines the reference timeout store for every operation sequence (unknown IDs included); due <=> same workflow/status, not completed, expired; other timers untouched. For every state a poll cycle cancels a timer only directly after reading its run as moved/finished and completes it only directly after the stored transition (theorem on the cycle's trace). Monitor: fired only with an own due timer listed in this cycle.",
          TRUST, "Coq proof (token theorem + refinement by simulation) + differential correspondence + monitor"),
  "C13": ("Theorems: the error counter touches exactly its (error, process, run) key; for EVERY state maybePause never pauses without a count, below the count writes nothing, at the count pauses through the controller and clears. Monitor on the real engine: paused exactly at the n-th failure of that key since the last pause; auto-retry only after the interval.",
          "The history-level count is decided by the monitor; per-operation arithmetic is proved. Counter key modelled as a triple. " + TRUST,
